@@ -163,6 +163,11 @@ def replay(case, acc):
     check_text(acc, case['text'], (), case.get('origin', 'replay'), case.get('compare_ref', False))
 
 
+from harness.shrink import text_shrinker  # noqa: E402
+shrink = text_shrinker(replay, 'text')
+
+
+
 def nontrivial(text, toks):
     kinds = set()
     rest = text.replace('\r\n', '')
